@@ -173,6 +173,16 @@ pub struct Sim {
     log_index: HashMap<u64, usize>,
     pub start_ns: u64,
     pub steps: u64,
+    /// observe every delivery to this (inline) node: settle tick + snapshot before, snapshot after
+    pub watch: Option<usize>,
+    pub watch_log: Vec<WatchRec>,
+}
+
+pub struct WatchRec {
+    pub wire: Wire,
+    pub t_ns: u64,
+    pub pre: v::Snapshot,
+    pub post: v::Snapshot,
 }
 
 impl Sim {
@@ -197,6 +207,8 @@ impl Sim {
             log_index: HashMap::new(),
             start_ns: v::now_ns(),
             steps: 0,
+            watch: None,
+            watch_log: vec![],
         }
     }
 
@@ -534,6 +546,17 @@ impl Sim {
                 if let Some(&i) = self.log_index.get(&wid) {
                     self.log[i].delivered_ns.push(now);
                 }
+            }
+            if self.watch == Some(n) {
+                // an input-less tick at this instant makes the state a fixpoint of "nothing arrives"
+                self.tick_node(n, None);
+                let pre = self.snapshot(n);
+                self.tick_node(n, Some((w.bytes.clone(), w.from)));
+                let post = self.snapshot(n);
+                if let (Some(pre), Some(post)) = (pre, post) {
+                    self.watch_log.push(WatchRec { wire: w.clone(), t_ns: now, pre, post });
+                }
+                return;
             }
             self.tick_node(n, Some((w.bytes.clone(), w.from)));
             return;
